@@ -114,6 +114,7 @@ def metamorphic(ck, H, summ, rng, n):
     stats = {'base_runs': 0, 'base_solved': 0, 'perm_pairs': 0, 'perm_forms': {}, 'wage_pairs': 0, 'deduction_pairs': 0, 'withholding_pairs': 0,
              'pairs_skipped_not_both_solved': 0, 'wage_pairs_tax_rises': 0, 'deduction_pairs_tax_falls': 0}
     results = []
+    slope_pairs = {}
     for k, (year, forms, sseed, prof, ov) in enumerate(c15.c15_scenarios(rng, n)):
         if year not in summ:
             continue
@@ -230,12 +231,14 @@ def metamorphic(ck, H, summ, rng, n):
             ck.count((year, 'withholding', key[0].split(':')[0]), nontrivial=True)
             m1 = solution_map(s1)
             net1 = (m1.get('1040.34') or 0.0) - (m1.get('1040.37') or 0.0)
+            if key[0].startswith('w-2') and len(slope_pairs.get(year, [])) < 3 and base.get('1040.25a') is not None and abs((m1.get('1040.25a') or 0) - base['1040.25a'] - delta) < 1e-9:
+                slope_pairs.setdefault(year, []).append((s0, s1, delta))
             if abs((net1 - net0) - delta) > 0.005:
                 ck.violation('C16:%d:withholding-slope:%s' % (year, key[0].split(':')[0]),
                              'ty%d: %.2f more withheld on %s.%s moves refund-minus-owed by %.2f' % (year, delta, key[0], key[1], net1 - net0),
                              dict(rep, transformation={'add': {'%s.%s' % key: delta}}, observed={'net_before': net0, 'net_after': net1}), found=True)
     ck.cov['metamorphic'] = stats
-    return results
+    return results, slope_pairs
 
 
 def run(tier, seed):
@@ -251,7 +254,8 @@ def run(tier, seed):
     summ = catalog.generate(ck, H)
     from . import c16coq
     c16coq.prove(ck, summ, H)
-    results = metamorphic(ck, H, summ, rng, 60 if tier == 'quick' else 900)
+    results, slope_pairs = metamorphic(ck, H, summ, rng, 60 if tier == 'quick' else 900)
+    c16coq.slope_instance(ck, H, summ, slope_pairs)
     catalog.validate(ck, H, summ, results[:10 if tier == 'quick' else 120])
     ck.sample({'theorems': ['Mono.dir_sound', 'Mono.top_dir_sound', 'Perm.qsum_perm', 'C16_slope_<y>', 'C16_chain_<y>_<k>']})
     return sf.finish_family(ck, 'C16')
